@@ -198,6 +198,7 @@ def violText : Nat → String
   | 9 => "runtime panic (nil / double channel close)"
   | 10 => "get returned nothing although items are queued"
   | 11 => "clientHeaders orphaned although the buffer was already closed / orphaned twice"
+  | 12 => "unparsable answer of the implementation"
   | _ => "?"
 
 /-- Verdict on one op and its result. -/
